@@ -74,6 +74,25 @@ def degenerate(desc):
   return np.linalg.matrix_rank(A, tol=1e-9) < A.shape[0]
 
 
+def licq_fails(x, desc, tol=1e-8):
+  """the constraints active at x (bounds, equalities, active inequalities) have linearly dependent gradients"""
+  lo, hi, Aeq, beq, G, h, _ = desc
+  x = np.asarray(x, dtype=float).reshape(-1)
+  m = len(lo)
+  rows = []
+  for i in range(m):
+    if abs(x[i] - lo[i]) <= tol or abs(x[i] - hi[i]) <= tol:
+      rows.append(np.eye(m)[i])
+  rows += [r for r in Aeq]
+  if len(h):
+    sl = G.dot(x) - h
+    rows += [G[i] for i in range(len(h)) if abs(sl[i]) <= tol]
+  if not rows:
+    return False
+  R = np.array(rows)
+  return np.linalg.matrix_rank(R, tol=1e-9) < R.shape[0]
+
+
 def residual(x, desc):
   """largest violation of bounds / equalities / inequalities (0 when feasible)"""
   lo, hi, Aeq, beq, G, h, _ = desc
